@@ -195,4 +195,29 @@ theorem oob_iff (version : Nat) (m : CommunityMsg) (enc : Bytes) (he : encCommun
     rw [if_pos (by omega)]
     exact data_prepend_empty enc
 
+/-- **C17.oversized_send** (v1 / v2c): an API call whose request does not fit the buffer fails with
+`OutOfBuffer`, which Python sees as `SnmpEncodeError`; `Session.send` returns an error instead of a
+datagram, i.e. nothing is handed to the socket; the session is left usable (only the request id moved) -/
+theorem oversized_send (D : Digests) (C : Ciphers) (cs : CommunitySession) (call : Call) (rawReq rawMsg : Int)
+    (pdu : Pdu) (enc : Bytes) (hp : call.toPdu (maskId rawReq) = .ok pdu)
+    (he : encCommunityMsg cs.version ⟨cs.community, pdu⟩ = some enc) (hbig : Buf.cap < enc.length) :
+    ((Session.community cs).send D C call rawReq rawMsg Buf.empty).2 = .err .OutOfBuffer ∧
+    pyClass .OutOfBuffer = .SnmpEncodeError ∧
+    ((Session.community cs).send D C call rawReq rawMsg Buf.empty).1 =
+      .community { cs with requestId := maskId rawReq } := by
+  have h := (oob_iff cs.version ⟨cs.community, pdu⟩ enc he).1.2 hbig
+  refine ⟨?_, rfl, rfl⟩
+  simp only [Session.send, hp, bind_ok, pushPduCommunity]
+  rw [h]
+  rfl
+
+/-- and a request that fits is sent as exactly its encoding -/
+theorem fitting_send (D : Digests) (C : Ciphers) (cs : CommunitySession) (call : Call) (rawReq rawMsg : Int)
+    (pdu : Pdu) (enc : Bytes) (hp : call.toPdu (maskId rawReq) = .ok pdu)
+    (he : encCommunityMsg cs.version ⟨cs.community, pdu⟩ = some enc) (hfit : enc.length ≤ Buf.cap) :
+    ((Session.community cs).send D C call rawReq rawMsg Buf.empty).2 = .ok enc := by
+  have h := (oob_iff cs.version ⟨cs.community, pdu⟩ enc he).2 hfit
+  simp only [Session.send, hp, bind_ok, pushPduCommunity]
+  exact h
+
 end GufoSnmp.C17
